@@ -8,6 +8,7 @@ Section EvInd.
   Variable P : ev -> Prop.
   Hypothesis HLine : forall id, P (Line id).
   Hypothesis HPred : forall id inner r, Forall P inner -> P (Pred id inner r).
+  Hypothesis HTrack : forall id inner r, Forall P inner -> P (Track id inner r).
   Hypothesis HDis : forall inner r, Forall P inner -> P (DisableBlock inner r).
   Hypothesis HEn : forall inner r, Forall P inner -> P (EnableBlock inner r).
 
@@ -20,6 +21,7 @@ Section EvInd.
     match e with
     | Line id => HLine id
     | Pred id inner r => HPred id inner r (all inner)
+    | Track id inner r => HTrack id inner r (all inner)
     | DisableBlock inner r => HDis inner r (all inner)
     | EnableBlock inner r => HEn inner r (all inner)
     end.
@@ -45,6 +47,13 @@ Lemma run_ev_Pred : forall fin id inner r st,
     let st2 := run fin inner (set_enabled false st) in
     let st3 := if r then st2 else rec_pred id st2 in
     if r && negb fin then st3 else set_enabled true st3
+  else st.
+Proof. reflexivity. Qed.
+Lemma run_ev_Track : forall fin id inner r st,
+  run_ev fin (Track id inner r) st =
+  if enabled st then
+    let st2 := run fin inner st in
+    if r then st2 else rec_instr id st2
   else st.
 Proof. reflexivity. Qed.
 Lemma run_ev_Dis : forall fin inner r st,
@@ -73,10 +82,12 @@ Qed.
 
 Lemma run_ev_enabled : forall e st, enabled (run_ev true e st) = enabled st.
 Proof.
-  induction e as [id|id inner r IH|inner r IH|inner r IH] using ev_ind'; intros st.
+  induction e as [id|id inner r IH|id inner r IH|inner r IH|inner r IH] using ev_ind'; intros st.
   - rewrite run_ev_Line. destruct (enabled st) eqn:E; [exact E|exact E].
   - rewrite run_ev_Pred. destruct (enabled st) eqn:E; [|exact E].
     cbn zeta. rewrite andb_false_r. reflexivity.
+  - rewrite run_ev_Track. destruct (enabled st) eqn:E; [|exact E].
+    cbn zeta. destruct r; cbn [rec_instr enabled]; rewrite (run_enabled_of_Forall inner IH); exact E.
   - rewrite run_ev_Dis. destruct (enabled st) eqn:E.
     + cbn zeta. rewrite andb_false_r. reflexivity.
     + rewrite (run_enabled_of_Forall inner IH). exact E.
@@ -96,20 +107,22 @@ Proof. intros. apply run_enabled. Qed.
 
 (* ---- 2. nothing recorded is ever lost (for either variant of the brackets) --------------------- *)
 Definition le_state (a b : state) : Prop :=
-  incl (lines a) (lines b) /\ incl (preds a) (preds b).
+  incl (lines a) (lines b) /\ incl (preds a) (preds b) /\ incl (instrs a) (instrs b).
 
 Lemma le_refl : forall a, le_state a a.
-Proof. intro a; split; apply incl_refl. Qed.
+Proof. intro a; repeat split; apply incl_refl. Qed.
 Lemma le_trans : forall a b c, le_state a b -> le_state b c -> le_state a c.
-Proof. intros a b c [H1 H2] [H3 H4]; split; eapply incl_tran; eassumption. Qed.
+Proof. intros a b c [H1 [H2 H5]] [H3 [H4 H6]]; repeat split; eapply incl_tran; eassumption. Qed.
 Lemma le_set_enabled_r : forall a b x, le_state a b -> le_state a (set_enabled x b).
 Proof. intros a b x H; exact H. Qed.
 Lemma le_set_enabled_l : forall a b x, le_state a b -> le_state (set_enabled x a) b.
 Proof. intros a b x H; exact H. Qed.
 Lemma le_rec_line : forall a id, le_state a (rec_line id a).
-Proof. intros a id; split; [apply incl_tl|]; apply incl_refl. Qed.
+Proof. intros a id; split; [apply incl_tl|split]; apply incl_refl. Qed.
 Lemma le_rec_pred : forall a id, le_state a (rec_pred id a).
-Proof. intros a id; split; [|apply incl_tl]; apply incl_refl. Qed.
+Proof. intros a id; split; [|split; [apply incl_tl|]]; apply incl_refl. Qed.
+Lemma le_rec_instr : forall a id, le_state a (rec_instr id a).
+Proof. intros a id; split; [|split; [|apply incl_tl]]; apply incl_refl. Qed.
 
 Lemma run_mono_of_Forall : forall fin l,
   Forall (fun e => forall st, le_state st (run_ev fin e st)) l ->
@@ -121,7 +134,7 @@ Qed.
 
 Lemma run_ev_mono : forall fin e st, le_state st (run_ev fin e st).
 Proof.
-  intros fin e; induction e as [id|id inner r IH|inner r IH|inner r IH] using ev_ind'; intros st.
+  intros fin e; induction e as [id|id inner r IH|id inner r IH|inner r IH|inner r IH] using ev_ind'; intros st.
   - rewrite run_ev_Line. destruct (enabled st); [apply le_rec_line|apply le_refl].
   - rewrite run_ev_Pred. destruct (enabled st); [|apply le_refl]. cbn zeta.
     assert (H : le_state st (run fin inner (set_enabled false st))).
@@ -130,6 +143,9 @@ Proof.
                               else rec_pred id (run fin inner (set_enabled false st)))).
     { destruct r; [exact H|]. eapply le_trans; [exact H|apply le_rec_pred]. }
     destruct (r && negb fin); [exact H3|apply le_set_enabled_r; exact H3].
+  - rewrite run_ev_Track. destruct (enabled st); [|apply le_refl]. cbn zeta.
+    assert (H : le_state st (run fin inner st)) by exact (run_mono_of_Forall fin inner IH st).
+    destruct r; [exact H|]. eapply le_trans; [exact H|apply le_rec_instr].
   - rewrite run_ev_Dis. destruct (enabled st).
     + cbn zeta.
       assert (H : le_state st (run fin inner (set_enabled false st))).
@@ -163,18 +179,29 @@ Lemma pred_recorded_after : forall pre id inner post st,
 Proof.
   intros pre id inner post st E. rewrite run_app, run_cons, run_ev_Pred.
   rewrite (run_enabled pre st), E. cbn zeta. rewrite andb_false_l.
-  apply (proj2 (run_mono true post _)). left; reflexivity.
+  apply (proj1 (proj2 (run_mono true post _))). left; reflexivity.
+Qed.
+
+Lemma instr_recorded_after : forall pre id inner post st,
+  enabled st = true -> In id (instrs (run true (pre ++ Track id inner false :: post) st)).
+Proof.
+  intros pre id inner post st E. rewrite run_app, run_cons, run_ev_Track.
+  rewrite (run_enabled pre st), E. cbn zeta.
+  apply (proj2 (proj2 (run_mono true post _))). left; reflexivity.
 Qed.
 
 (* disabled means not recorded (the design of the switch; must not change either) *)
 Lemma disabled_records_nothing : forall fin id st,
-  enabled st = false -> run_ev fin (Line id) st = st /\ forall inner r, run_ev fin (Pred id inner r) st = st.
+  enabled st = false ->
+  run_ev fin (Line id) st = st /\ (forall inner r, run_ev fin (Pred id inner r) st = st) /\
+  (forall inner r, run_ev fin (Track id inner r) st = st).
 Proof.
-  intros fin id st E. split; [|intros inner r]; [rewrite run_ev_Line|rewrite run_ev_Pred]; rewrite E; reflexivity.
+  intros fin id st E. split; [|split; intros inner r];
+    [rewrite run_ev_Line|rewrite run_ev_Pred|rewrite run_ev_Track]; rewrite E; reflexivity.
 Qed.
 
 (* ---- 4. without `finally` the property fails: the unrepaired code ------------------------------- *)
-Definition st0 : state := {| enabled := true; lines := []; preds := [] |}.
+Definition st0 : state := {| enabled := true; lines := []; preds := []; instrs := [] |}.
 
 Lemma without_finally_refuted :
   exists evs id, enabled (run false evs st0) = false /\ ~ In id (lines (run false (evs ++ [Line id]) st0)).
@@ -185,10 +212,10 @@ Qed.
 (* non-vacuity: a statement whose body raises inside a callback, catches it, and goes on; nested
    brackets as produced by the assertion observer *)
 Example ex_statement :
-  let body := [Line 1; Pred 0 [Line 5; Pred 3 [] false] true; Line 2; Pred 1 [] false] in
+  let body := [Line 1; Pred 0 [Line 5; Pred 3 [] false] true; Track 4 [Line 6] true; Line 2; Pred 1 [] false] in
   let after := [EnableBlock [Pred 2 [Line 9] true; Line 3] false] in
   let st := run true (statement [Line 8] body after) st0 in
-  enabled st = true /\ lines st = [3; 2; 1]%Z /\ preds st = [1]%Z.
+  enabled st = true /\ lines st = [3; 2; 6; 1]%Z /\ preds st = [1]%Z.
 Proof. cbv. repeat split. Qed.
 
 Example ex_statement_without_finally :
